@@ -268,6 +268,21 @@ namespace adept {
       static const bool value = true;
     };
 
+#ifdef RJHOGAN_ADEPT_2_VERIF
+    // Verification hook H2 (compiled only with -DRJHOGAN_ADEPT_2_VERIF):
+    // counters written by the packet loops of Array::assign_expression_
+    // and reduce_inactive so that a test harness can see which loop
+    // partition was used.  [0] = site (1: assign, rank 1; 2: assign,
+    // rank > 1; 3: reduce_inactive), [1] = istartvec, [2] = iendvec,
+    // [3] = number of packets processed, [4] = number of times a
+    // vectorizable branch was entered, [5] = Packet<Type>::size at the
+    // site.  A function-local static keeps this header-only and C++98.
+    inline int* verif_simd_() {
+      static int counters[8] = {0, 0, 0, 0, 0, 0, 0, 0};
+      return counters;
+    }
+#endif
+
   } // End namespace internal
 
 
